@@ -51,6 +51,19 @@ class Fn:
             if len(pl) > 1 and pl[0] == 1:
                 self.upvars[tuple(pl[1:])] = name
 
+    # ---- parameters by role: private functions may have their parameters renamed or reordered, so rules ask for "the parameter
+    # called X, else the nth parameter whose type mentions T" instead of a position
+    def param(self, name=None, ty=None, nth=0):
+        if name is not None:
+            for i, n in enumerate(self.arg_names):
+                if n == name and i < self.arg_count:
+                    return i + 1
+        if ty is not None:
+            hits = [i for i in range(1, self.arg_count + 1) if ty in str(self.locals[i])]
+            if nth < len(hits):
+                return hits[nth]
+        return None
+
     # ---- basic
     def name(self):
         return self.path
@@ -347,6 +360,29 @@ class Fn:
                     if bool(x[4][1][2]) != val:
                         continue
                 rest.append(x)
+            if len(rest) > 1 and val is True:
+                # monotone flag (`ok = ok && f(x)` in a loop): a definition that is only executed where the flag is already
+                # known to be true cannot be the one that made it true; if one other definition remains it is the origin
+                def under_flag(block):
+                    for u2, v2, (d2, val2) in self._facts_at_raw(block):
+                        e = d2
+                        while e and e[0] in ("ref", "deref"):
+                            e = e[1]
+                        if val2 is True and e and e[0] == "var" and e[1] == sd[1]:
+                            return True
+                    return False
+
+                def self_conditioned(x):
+                    if under_flag(x[1]):
+                        return True
+                    # `flag = tmp` where tmp is `flag && ..` lowered into its own temporary: every definition of tmp that is
+                    # not the constant false sits under `flag == true`
+                    if x[0] == "s" and x[4][0] == "use" and x[4][1][0] in ("cp", "mv") and len(x[4][1][1]) == 1:
+                        tdefs = self.defs.get(x[4][1][1][0], [])
+                        nonconst = [y for y in tdefs if not (y[0] == "s" and y[4][0] == "use" and y[4][1][0] == "c" and not y[4][1][2])]
+                        return bool(tdefs) and all(under_flag(y[1]) for y in nonconst)
+                    return False
+                rest = [x for x in rest if not self_conditioned(x)]
             if len(rest) != 1:
                 continue
             x = rest[0]
@@ -362,7 +398,10 @@ class Fn:
             D = x[1]
             if D == b:
                 continue
-            extra.append((D, D, (nd, val)))
+            nval = val
+            while nd and nd[0] == "un" and nd[1] == "Not" and isinstance(nval, bool):
+                nd, nval = nd[2], not nval
+            extra.append((D, D, (nd, nval)))
             extra.extend(self.facts_at(D, _depth + 1))
         return out + extra
 
